@@ -1,10 +1,20 @@
 /-
   EG.Driver.Thick — model side of the `thick.*` correspondence streams (harness/src/m_thick.rs).
 -/
-import EG.Driver.Util
+import EG.Driver.Line
+import EG.Model.ThickLine
 namespace EG.Driver
 open EG
 
-def handleThick (_stream : String) (_t : Toks) : Option String := none
+def handleThick (stream : String) (t : Toks) : Option String :=
+  match stream with
+  | "thick.points" =>
+    let (s, t) := t.pt
+    let (e, t) := t.pt
+    let (w, _) := t.nat
+    match Thick.thickPoints ⟨s, e⟩ w with
+    | some ps => some (fmtPtsDigest ps)
+    | none => some "stuck"
+  | _ => none
 
 end EG.Driver
